@@ -20,12 +20,24 @@
 #include "QXmppTrustLevel.h"
 extern "C" void vp_c18_limit(bool ok);   // c18_env.c: ASSERT(ok, "..."), ASSUME(ok)
 
-extern "C" unsigned vp_c18_jid_code(const QString *s);      // unit of a 1-unit string, else 0
-extern "C" unsigned vp_c18_key_code(const QByteArray *s);   // byte of a 1-byte array, else 0
-// equality of keys / values: two 1-unit strings are equal iff their units are equal (one comparison instead of the generic
-// string comparison of the QString model); anything else goes through the real operator==
-static inline bool vpEqS(const QString &a, const QString &b) { unsigned x = vp_c18_jid_code(&a), y = vp_c18_jid_code(&b); if (x != 0 && y != 0) return x == y; return a == b; }
-static inline bool vpEqB(const QByteArray &a, const QByteArray &b) { unsigned x = vp_c18_key_code(&a), y = vp_c18_key_code(&b); if (x != 0 && y != 0) return x == y; return a == b; }
+extern "C" unsigned vp_c18_jid_code(const QString *s);      // unit of a 1-unit model string; 0 for a model string of another length; C18_UNKNOWN otherwise
+extern "C" unsigned vp_c18_key_code(const QByteArray *s);   // same for byte arrays
+#define C18_UNKNOWN 0xFFFFFFFFu
+// equality of keys / values: strings built by the string model are compared through their codes (two 1-unit strings are equal iff
+// their units are equal; a 1-unit string never equals a string of another length); anything else - and two strings that are both
+// not 1 unit long - goes through the real operator==
+static inline bool vpEqS(const QString &a, const QString &b)
+{
+    unsigned x = vp_c18_jid_code(&a), y = vp_c18_jid_code(&b);
+    if (x == C18_UNKNOWN || y == C18_UNKNOWN || (x == 0 && y == 0)) return a == b;
+    return x == y;
+}
+static inline bool vpEqB(const QByteArray &a, const QByteArray &b)
+{
+    unsigned x = vp_c18_key_code(&a), y = vp_c18_key_code(&b);
+    if (x == C18_UNKNOWN || y == C18_UNKNOWN || (x == 0 && y == 0)) return a == b;
+    return x == y;
+}
 #ifndef MH_CAP
 #define MH_CAP 4
 #endif
